@@ -393,9 +393,14 @@ impl<'de, R: Reader<'de>> Deserializer<R> {
                 // repr the invalid utf8, not need to care about the invalid UTF8 char in non-string
                 // parts, it will cause errors when parsing.
                 let repaired = String::from_utf8_lossy(json);
-                let n = val.parse_with_padding(repaired.as_bytes(), cfg)?;
-                // `n` counts bytes of the repaired copy, map it back to the input
-                lossy_consumed(json, n)
+                // offsets count bytes of the repaired copy, map them back to the input
+                match val.parse_with_padding(repaired.as_bytes(), cfg) {
+                    Ok(n) => lossy_consumed(json, n),
+                    Err(err) => {
+                        let index = lossy_consumed(json, err.offset());
+                        return Err(err.relocate(json, index));
+                    }
+                }
             } else {
                 val.parse_with_padding(json, cfg)?
             };
